@@ -644,7 +644,7 @@ func (x *Exec) specCallExpr(env *SpecEnv, e *SExpr) Value {
 			ow := cell.F["comittedValue"].(StructV)
 			opt := ow.F["overwritten"].(StructV)
 			return x.iteVal(opt.F["some"].(BoolV).T, opt.F["value"], ow.F["value"])
-		case "readall", "readlen", "readercontent", "readerlen", "buflen", "bufcontent", "fsinode", "isize", "icontent", "handleinode", "tickerival", "bufsrc", "connreader", "bodypending", "bodyof", "hijacked", "wbody", "wlen", "whdr", "wte", "chansends", "chanlast":
+		case "readall", "readlen", "readercontent", "readerlen", "buflen", "bufcontent", "fsinode", "isize", "icontent", "handleinode", "tickerival", "bufsrc", "connreader", "bodypending", "bodyof", "hijacked", "wbody", "wlen", "whdr", "wte", "chansends", "chanlast", "lvlsets", "lvlval", "closedh":
 			return IntV{Select(env.st.ghostArr(name, SInt), x.identityOf(env.st, x.specEval(env, e.Args[0])))}
 		case "fsexists":
 			return BoolV{Ne(Select(env.st.ghostArr("fsinode", SInt), x.identityOf(env.st, x.specEval(env, e.Args[0]))), IntLit(0))}
